@@ -1103,7 +1103,9 @@ impl<'a> CompiledPredicate<'a> {
             BinaryOperator::Power => match (left, right) {
                 (Value::Int(a), Value::Int(b)) => {
                     if *b >= 0 {
-                        Some(Value::Int(a.pow(*b as u32)))
+                        // beyond u32 only the exponent's parity matters: |a| >= 2 overflows anyway
+                        let exp = u32::try_from(*b).unwrap_or(u32::MAX - 1 + (*b % 2) as u32);
+                        a.checked_pow(exp).map(Value::Int)
                     } else {
                         Some(Value::Float((*a as f64).powi(*b as i32)))
                     }
